@@ -8,7 +8,8 @@ CHECK = {
                   "18 subgrid layouts dividing the grid, 10 boundary mixes (the 8 periodic/reflective mixes and two with "
                   "inflow/outflow faces), 2-3 cell shapes, gamma in {1.0001, 1.4, 5/3, 2}, dt in {0.1, 0.5, 1} x the "
                   "code's stability limit and a family of initial states (pairs of states of the C04 alphabet split by 18 "
-                  "masks, uniform states, mixtures; with and without a perturbation that makes all cells distinct). Every "
+                  "masks, uniform states, mixtures, and a denormal (1e-310) / exact-vacuum state against rest and supersonic "
+                  "gas; with and without a perturbation that makes all cells distinct). Every "
                   "layout is executed in four (quick) or five (thorough) dependency respecting sequential task orders; each result is compared cell "
                   "by cell in global cell order with the undivided grid and with a reference that calls the per-face "
                   "functions of the real Hydro object in plain loops over one global array. Repeating an order must "
